@@ -143,7 +143,7 @@ let rec dump_doc b (d : doc) =
 let doc_to_string d = let b = Buffer.create 256 in dump_doc b d; Buffer.contents b
 
 let rec nat_of_int n = if n <= 0 then O else S (nat_of_int (n - 1))
-let rec int_of_nat = function O -> 0 | S n -> 1 + int_of_nat n
+let int_of_nat n = let rec go a = function O -> a | S n -> go (a + 1) n in go 0 n
 
 let site_name = function
   | SMathDelimitedSlice -> "math_delimited_slice" | SChainRemove0 -> "chain_remove0"
@@ -186,7 +186,7 @@ let () =
           | Some s -> hex_of_str s
           | None -> "fuel")
   | "conv" ->
-      (* W TAB REORDER NW (HEX WIDTH)*NW TREE -> ok COUNT DOC<tab>OUTHEX | err | panic SITE | fuel *)
+      (* W TAB REORDER NW (HEX WIDTH)*NW TREE -> ok COUNT:WFC:SIZE DOC<tab>OUTHEX | err | panic SITE | fuel *)
       each_line (fun line ->
           let t = toks_of line in
           let w = n_of_int (int_of_string (next t)) in
@@ -206,7 +206,7 @@ let () =
             | Panic s -> "panic " ^ site_name s
             | Ok (d, cnt) ->
                 (match render w d with
-                 | Some out -> Printf.sprintf "ok %d %s\t%s" (int_of_n cnt) (doc_to_string d) (hex_of_str (strip out))
+                 | Some out -> Printf.sprintf "ok %d:%d:%d %s\t%s" (int_of_n cnt) (if wfc tree then 1 else 0) (int_of_nat (tree_size tree)) (doc_to_string d) (hex_of_str (strip out))
                  | None -> "fuel"))
   | "range" ->
       (* W TAB A B NW (HEX WIDTH)*NW TREE -> ok RS RE OUTHEX | err | panic SITE | fuel *)
